@@ -37,13 +37,14 @@ type Result struct {
 	Ports           []int                  `json:"ports"`
 	Info            map[string]interface{} `json:"info,omitempty"`
 	Sessions        map[string]int64       `json:"sessions,omitempty"`
+	RestoredNode    int                    `json:"restored_node,omitempty"`
 }
 
 func main() {
 	bin := flag.String("bin", "", "robustirc binary built with -tags verif")
 	work := flag.String("work", "", "scratch directory (raftdirs, certificates, node logs)")
 	out := flag.String("out", "", "directory for trace.ndjson, aux.ndjson, result.json")
-	scen := flag.String("scenario", "mix1", "mix1 | mix3 | config1 | failover-stop | failover-kill")
+	scen := flag.String("scenario", "mix1", "mix1 | mix3 | config1 | failover-stop | failover-kill | restored-leader | restored-leader-long | restored-exleader | restored-exleader-long")
 	seed := flag.Int64("seed", 1, "seed")
 	expMs := flag.Int("exp", 4000, "SessionExpiration in ms")
 	deadline := flag.Int("deadline", 240, "overall deadline in seconds")
@@ -64,10 +65,13 @@ func main() {
 		res.Status = "inconclusive"
 		res.Why = err.Error()
 	}
-	nodes := 1
+	nodes, trailing := 1, -1
 	switch *scen {
 	case "mix3", "failover-stop", "failover-kill":
 		nodes = 3
+	case "restored-leader", "restored-leader-long", "restored-exleader", "restored-exleader-long":
+		nodes = 3
+		trailing = 1
 	case "mix1", "config1", "linkgone1":
 	default:
 		fmt.Fprintln(os.Stderr, "unknown scenario", *scen)
@@ -86,6 +90,7 @@ func main() {
 		fmt.Fprintln(os.Stderr, err)
 		os.Exit(2)
 	}
+	c.trailingLogs = trailing
 	for _, n := range c.nodes {
 		res.Ports = append(res.Ports, n.port)
 	}
@@ -162,8 +167,18 @@ func main() {
 			err = sc.runFailover(rng, exp, "stop", sp)
 		case "failover-kill":
 			err = sc.runFailover(rng, exp, "kill", sp)
+		case "restored-leader":
+			err = sc.runRestoredLeader(rng, exp, false, false)
+		case "restored-leader-long":
+			err = sc.runRestoredLeader(rng, exp, true, false)
+		case "restored-exleader":
+			err = sc.runRestoredLeader(rng, exp, false, true)
+		case "restored-exleader-long":
+			err = sc.runRestoredLeader(rng, exp, true, true)
 		}
-		if err != nil {
+		if o, ok := err.(*Observed); ok {
+			sc.note("scenario ended early: %s", o.why)
+		} else if err != nil {
 			fail(err)
 		}
 	}()
@@ -218,8 +233,11 @@ func main() {
 	}
 	res.Notes = sc.notes
 	res.Unmet = sc.unmet
+	res.RestoredNode = sc.restoredNode
 	if len(res.UnexpectedExits) > 0 && res.Status == "ok" {
 		fail(inconclusive("a node exited on its own: %v", res.UnexpectedExits))
+	} else if len(res.UnexpectedExits) > 0 {
+		res.Why += fmt.Sprintf(" (a node exited on its own: %.600v)", res.UnexpectedExits)
 	}
 	rec.Close()
 	// the raft directories are large; the node logs and the hook traces stay for the report
